@@ -109,6 +109,10 @@ func mxComp(mode string) *websocket.VerifCompression {
 		return &websocket.VerifCompression{}
 	case "no-takeover":
 		return &websocket.VerifCompression{ClientNoContextTakeover: true, ServerNoContextTakeover: true}
+	case "client-nct":
+		return &websocket.VerifCompression{ClientNoContextTakeover: true}
+	case "server-nct":
+		return &websocket.VerifCompression{ServerNoContextTakeover: true}
 	}
 	return nil
 }
